@@ -1,6 +1,20 @@
 import Rtsp.Props.C02
 open Rtsp.Sess.C02
 #print axioms facts_shape
+#print axioms one_response_per_request
+#print axioms responses_echo_cseq
+#print axioms no_response_after_error
+#print axioms refines_rfc
+#print axioms error_unchanged
+#print axioms state_is_rfc_step
+#print axioms illegal_is_error_and_unchanged
+#print axioms illegal_strict
+#print axioms pause_in_ready_accepted
+#print axioms stricter_than_rfc_exactly
+#print axioms state_guard
+#print axioms legal_wellformed_ok
+#print axioms teardown_ends
+#print axioms session_ends_once
 #print axioms keepalive_margin
 #print axioms keepalive_margin_tight
 #print axioms live_never_expired
